@@ -61,7 +61,39 @@ def shards(tier):
         out.append({'level': 'G', 'gid': gid, 'tier': tier})
     for first in HIER_METHODS:
         out.append({'level': 'I', 'first': first, 'tier': tier})
+    # level S: two applications with different protocol configurations over the SAME model classes, used one after the other
+    for ci in range(len(configs(tier))):
+        out.append({'level': 'S', 'ci': ci, 'tier': tier})
     return out
+
+
+def run_shared(shard, res, only=None):
+    """every ordered pair of configurations (first, second) as two applications over one build; the nested-object call is
+    made through the first, the second and the first again - what one protocol object learnt about a class must not decide
+    for another"""
+    tier = shard.get('tier', 'quick')
+    cfgs = configs(tier)
+    c1 = cfgs[shard['ci']]
+    at = c01.atom_by_id('Integer')
+    program = universe.program_for(at, 'field2')
+    args, ret, ih, oh = universe.embed('field2', at, 5)
+    for cj, c2 in enumerate(cfgs):
+        if only is not None and only['cj'] != cj:
+            continue
+        b = spec.build(program)
+        hs = [harness.DictHarness(program, built=b, **c1), harness.DictHarness(program, built=b, **c2)]
+        res['cov']['programs'] += 1
+        for step, hi in enumerate((0, 1, 0)):
+            h = hs[hi]
+            casedoc = {'level': 'S', 'shard': shard, 'cj': cj, 'cfg': h.cfg, 'step': step}
+            oc = run_case(h, 'm', args, ret, {'site': 'S|%s' % ('first-application' if step == 0 else 'second-application' if step == 1 else 'first-application-again'), 'case': casedoc}, res)
+            res['evaluations'] += 1
+            res['outcomes'][oc] = res['outcomes'].get(oc, 0) + 1
+            if oc == 'ok':
+                res['nontrivial'] += 1
+            elif oc not in ('positional-not-applicable', 'not-denotable'):
+                break
+        res['cov']['shared_class_config_pairs'] = res['cov'].get('shared_class_config_pairs', 0) + 1
 
 
 # level I: every order in which one application meets the classes of a three-level hierarchy (what is remembered about
@@ -236,6 +268,8 @@ def run_shard(shard):
     tier = shard.get('tier', 'quick')
     if shard['level'] == 'I':
         run_hier(shard, res)
+    elif shard['level'] == 'S':
+        run_shared(shard, res)
     elif shard['level'] == 'G':
         program = universe.alias_program(shard['gid'])
         res['cov']['programs'] += 1
@@ -290,6 +324,9 @@ def replay(case):
         return res['violations']
     if case['level'] == 'I':
         run_hier(case['shard'], res, only=case)
+        return res['violations']
+    if case['level'] == 'S':
+        run_shared(case['shard'], res, only=case)
         return res['violations']
     if case['level'] == 'A':
         at = c01.atom_by_id(case['atom'])
